@@ -1,6 +1,7 @@
 package main
 
 import (
+	"context"
 	"encoding/json"
 	"fmt"
 	"os"
@@ -171,7 +172,15 @@ func runCheck(o *CheckOpts) int {
 			sem <- struct{}{}
 			defer func() { <-sem }()
 			qt := ob.W.queryText(ob, false)
-			r := solve(qt, tmp, ob.Name, timeout, o.Seed, all)
+			var r SolveResult
+			if ob.Cover {
+				// vacuity covers: a quick single-solver attempt; only "unsat" is meaningful
+				file := filepath.Join(tmp, sanitizeFile(ob.Name)+".smt2")
+				os.WriteFile(file, []byte(qt), 0o644)
+				r = runSolver(context.Background(), solvers[0], file, 3, o.Seed)
+			} else {
+				r = solve(qt, tmp, ob.Name, timeout, o.Seed, all)
+			}
 			if !ob.Cover && r.Status != "unsat" {
 				// retry with a longer timeout on all solvers before calling it undischarged; get a model if sat
 				qm := ob.W.queryText(ob, true)
